@@ -102,7 +102,11 @@ def run(chk):
         if not ws:
             ws = [[]]
         c["_ws"] = ws
-        inputs.append({"i": i, "rules": [{"l": r["l"], "r": _seq(r["r"])} for r in c["rules"]], "inputs": ws})
+        # every third grammar is built incrementally (queries between the additions), S's rules first in half of those
+        rl = [{"l": r["l"], "r": _seq(r["r"])} for r in c["rules"]]
+        if i % 6 == 0:
+            rl.sort(key=lambda r: (r["l"] != "S", r["l"], r["r"]))
+        inputs.append({"i": i, "rules": rl, "inputs": ws, "incremental": i % 3 == 0})
     got = {}
     for recs, rc, err, part in parallel_th(tha, ["lr"], inputs, timeout=2400):
         for r in recs:
